@@ -11,7 +11,8 @@
 // property", and "the honest block is accepted".
 //
 // ops:  state <model fields> | n=.. me=.. powers=.. heights=.. seed=..
-//       validate <model fields> slots ... | mut=<m1>;<m2>..
+//
+//	validate <model fields> slots ... | mut=<m1>;<m2>..
 package main
 
 import (
@@ -33,6 +34,7 @@ type impl struct {
 	powers []int64           // powers in force at the node's current height
 	pw     map[int64][]int64 // powers in force at each height (the harness's own bookkeeping)
 	me     int
+	equiv  bool // this chain's heights are committed with an equivocating validator (see advance1)
 }
 
 func hexs(b []byte) string { return fmt.Sprintf("%x", b) }
@@ -178,8 +180,37 @@ func (x *impl) advance1(R *vh.Rng) bool {
 	for _, pw := range x.powers {
 		tot += pw
 	}
+	voted := map[int]bool{}
+	if x.equiv && n >= 4 {
+		// A Byzantine validator e (the heaviest of the others) precommits nil first; a peer claims +2/3
+		// for the block; e's precommit for the block arrives (admitted because of the claim); then just
+		// enough of the others precommit the block for the quorum to depend on e. The block is rightly
+		// committed - and the commit the node stores and hands to the next proposer must verify.
+		e := -1
+		for i := 0; i < n; i++ {
+			if i != x.me && (e < 0 || x.powers[i] > x.powers[e]) {
+				e = i
+			}
+		}
+		im.Exec(fmt.Sprintf("vote t=2 h=%d r=0 idx=%d addr=%x block=- ok=1 peer=p%d", h, e, im.C.Addr(e), e))
+		im.Exec("drain")
+		im.Exec(fmt.Sprintf("maj23 t=2 h=%d r=0 block=%s peer=p%d", h, blk, (e+1)%n))
+		im.Exec(fmt.Sprintf("vote t=2 h=%d r=0 idx=%d addr=%x block=%s ok=1 peer=p%d", h, e, im.C.Addr(e), blk, e))
+		im.Exec("drain")
+		voted[e] = true
+		acc := x.powers[x.me] + x.powers[e]
+		for _, i := range order {
+			if i == x.me || i == e || acc*3 > tot*2 || nodeimpl.Atoi(field(im.Digest(), "h")) > h {
+				continue
+			}
+			im.Exec(fmt.Sprintf("vote t=2 h=%d r=0 idx=%d addr=%x block=%s ok=1 peer=p%d", h, i, im.C.Addr(i), blk, i))
+			im.Exec("drain")
+			voted[i] = true
+			acc += x.powers[i]
+		}
+	}
 	for _, i := range order {
-		if i == x.me {
+		if i == x.me || voted[i] || nodeimpl.Atoi(field(im.Digest(), "h")) > h {
 			continue
 		}
 		b := blk
@@ -220,6 +251,7 @@ func (x *impl) setup(kv map[string]string) string {
 	}
 	x.im.Exec(fmt.Sprintf("init n=%d me=%d powers=%s skip=0", len(x.powers), x.me, strings.Join(ps, ",")))
 	R := vh.NewRng(uint64(nodeimpl.Atoi(kv["seed"])))
+	x.equiv = nodeimpl.Atoi(kv["seed"])%2 == 0
 	x.pw = map[int64][]int64{1: append([]int64{}, x.powers...)}
 	x.im.C.Changes = map[int64]nodekit.PowerChange{}
 	for h := int64(1); h <= nodeimpl.Atoi(kv["heights"]); h++ {
